@@ -252,7 +252,9 @@ func c22NS(csl string) string {
 
 func c22NewHarness(t *testing.T) *c22Harness {
 	h := &c22Harness{sess: map[string]*rwSession{}}
-	h.r = rigStart(t, rigOpts{Namespaces: rwNSList(rwNamespace("ns22a", true), rwNamespace("ns22b", false)), FakePools: true})
+	ks := rwNamespace("ns22k", true)
+	ks.SetForKeepSession = true
+	h.r = rigStart(t, rigOpts{Namespaces: rwNSList(rwNamespace("ns22a", true), rwNamespace("ns22b", false), ks), FakePools: true})
 	for _, csl := range []string{"on", "off"} {
 		for _, u := range []string{"rws", "rw", "ro", "ro2"} {
 			s, err := rwOpen(h.r, c22NS(csl), u, "db")
@@ -335,7 +337,7 @@ func TestVerif_C22(t *testing.T) {
 		"case = statement form (3 plain reads, 6 writes, 3 locking-read templates x 9 lock clauses, 4 master-hint placements, 5 read_only probes) x decorations "+
 			"{leading comment/white space (4), trailing comment or ';' (6), token separator (3), keyword case (3), hint-word/variable-name case (2)} x channel {query, piece of a multi-statement, prepare+execute, with parameters} "+
 			"x check_select_lock {on, off} x user {rw-split, read-write, read-only with/without split} x {no tx, BEGIN, autocommit=0}; thorough enumerates the product for the rw-split user outside transactions and "+
-			"every single-decoration case for the other users / transactions; non-trivial = a master is demanded and the statement produced >=1 backend exec")
+			"every single-decoration case for the other users / transactions; plus keep-session histories (namespace with set_for_keep_session: fresh session, first statement a plain read or nothing, then every must-master statement in a chain and alone, read-write users with/without split); non-trivial = a master is demanded and the statement produced >=1 backend exec")
 	defer rec.Finish(t)
 	rec.Assume("a master hint is the comment /*master*/ placed before the statement (possibly after other leading comments) or directly after SELECT, as in docs/faq.md and executor_test.go; a trailing hint is not claimed")
 	rec.Assume("no claim for plain reads of rw-split users and, outside transactions, for read-only users (docs/faq.md)")
@@ -445,6 +447,140 @@ func TestVerif_C22(t *testing.T) {
 		rec.Violation(sigOf(min, v.Clause), mv.What, min)
 	}
 
+	// ---- keep-session namespace (set_for_keep_session): the session pins one backend
+	// connection per slice with its first statement. Histories: a fresh session whose first
+	// statement is a plain read (or nothing), followed by every statement that must run on a
+	// master (writes, locking reads, hinted reads, read_only probes, anything inside a
+	// transaction) - on the SAME session, in sequence, and each alone on a fresh session.
+	// Claimed for read-write users (with and without rw-split); read-only users keep their
+	// session on a replica by design.
+	ksPhase := func() {
+		if ioFail {
+			return
+		}
+		firsts := []string{"", "plain_t2", "plain_shard", "plain_show"}
+		type step struct {
+			form string
+			tx   string
+		}
+		var steps []step
+		for _, f := range c22Forms {
+			if f.Class != "plain" {
+				steps = append(steps, step{f.Name, "none"})
+			}
+		}
+		for _, f := range []string{"plain_t2", "plain_shard", "w_update", "lock_t2"} {
+			steps = append(steps, step{f, "begin"}, step{f, "ac0"})
+		}
+		runOn := func(sess *rwSession, st step) (rwObs, string, error) {
+			c := c22Case{Form: st.form, D: map[string]string{}}
+			switch st.tx {
+			case "begin":
+				sess.Query("begin")
+			case "ac0":
+				sess.Query("set autocommit=0")
+			}
+			rs, obs, err := sess.Query(c.text(false))
+			switch st.tx {
+			case "begin":
+				sess.Query("rollback")
+			case "ac0":
+				sess.Query("rollback")
+				sess.Query("set autocommit=1")
+			}
+			return obs, rwReplyBrief(rs, err), err
+		}
+		judge := func(user, first, mode string, st step, obs rwObs, reply string) {
+			rec.Eval(1)
+			rec.Count("keepsession.steps", 1)
+			var non []string
+			n := 0
+			for _, e := range obs.Execs {
+				if strings.HasPrefix(strings.ToLower(e.SQL), "savepoint") {
+					continue
+				}
+				n++
+				if e.Role != "master" {
+					non = append(non, fmt.Sprintf("%s/%s %q", e.Slice, e.Role, e.SQL))
+				}
+			}
+			rec.Count("rig.events.exec", int64(n))
+			if n > 0 {
+				rec.Nontrivial("ks|" + user + "|" + first + "|" + mode + "|" + st.form + "|" + st.tx)
+			}
+			if len(non) == 0 {
+				return
+			}
+			why := "in-transaction"
+			if st.tx == "none" {
+				why = c22Forms[c22FormIdx[st.form]].Class
+			}
+			c := c22Case{Form: st.form, D: map[string]string{"user": user, "tx": st.tx, "keep_session": "on", "first": first, "mode": mode}}
+			rec.Violation(fmt.Sprintf("C22/replica:keep-session:%s/%s/first=%s,user=%s", why, st.form, first, user),
+				fmt.Sprintf("keep-session namespace, user %s, session whose first statement was %q, then (tx %s) %q ran on a replica: %q, replies [%s]", user, first, st.tx, c22Case{Form: st.form, D: map[string]string{}}.text(false), non, reply), c)
+		}
+		for _, user := range []string{"rws", "rw"} {
+			for _, first := range firsts {
+				open := func() *rwSession {
+					sess, err := rwOpen(h.r, "ns22k", user, "db")
+					if err != nil {
+						rec.Inconclusive("keep-session phase: dial: " + err.Error())
+						ioFail = true
+						return nil
+					}
+					if first != "" {
+						_, obs, err := sess.Query(c22Case{Form: first, D: map[string]string{}}.text(false))
+						if err != nil {
+							rec.Inconclusive("keep-session phase: I/O error " + err.Error())
+							ioFail = true
+							sess.Close()
+							return nil
+						}
+						for _, e := range obs.Execs {
+							if e.Role != "master" {
+								rec.Count("keepsession.first_read_on_replica", 1)
+							}
+						}
+					}
+					return sess
+				}
+				// (a) the whole chain on one session
+				if sess := open(); sess != nil {
+					for _, st := range steps {
+						obs, reply, err := runOn(sess, st)
+						if err != nil {
+							rec.Inconclusive("keep-session phase: I/O error " + err.Error())
+							ioFail = true
+							break
+						}
+						judge(user, first, "chain", st, obs, reply)
+					}
+					sess.Close()
+				}
+				// (b) each step alone on a fresh session
+				for _, st := range steps {
+					if ioFail {
+						return
+					}
+					sess := open()
+					if sess == nil {
+						return
+					}
+					obs, reply, err := runOn(sess, st)
+					sess.Close()
+					if err != nil {
+						rec.Inconclusive("keep-session phase: I/O error " + err.Error())
+						ioFail = true
+						return
+					}
+					judge(user, first, "alone", st, obs, reply)
+				}
+			}
+		}
+		if rec.CounterValue("keepsession.steps") == 0 {
+			rec.Inconclusive("keep-session phase observed nothing")
+		}
+	}
 	if p := kit.ReplayPath(); p != "" {
 		var c c22Case
 		if err := kit.LoadReplay(p, &c); err != nil {
@@ -453,6 +589,12 @@ func TestVerif_C22(t *testing.T) {
 		}
 		if c.D == nil {
 			c.D = map[string]string{}
+		}
+		if c.D["keep_session"] == "on" {
+			fmt.Printf("REPLAY keep-session history: running the whole keep-session phase\n")
+			ksPhase()
+			rec.Sample(c)
+			return
 		}
 		c.Text = ""
 		v := eval(c)
@@ -543,6 +685,7 @@ func TestVerif_C22(t *testing.T) {
 			one(c)
 		}
 	}
+	ksPhase()
 	rec.Set("distinct_cases_evaluated", len(cache))
 	if rec.CounterValue("rig.events.exec") == 0 {
 		rec.Inconclusive("no statement reached a backend")
